@@ -132,6 +132,8 @@ type Config struct {
 	// DBLevel for queries with one slot / with more slots.
 	DBLevelSingle, DBLevelMulti int
 	Oracle                      Oracle
+	// Subject, when set, replaces the default classifying coordinates of a minimised failure.
+	Subject func(c Case, f *Failure) map[string]string
 	// DBFilter, when set, selects databases for multi-slot queries.
 	DBFilter func(g qgen.GQ, s qgen.DBSpec) bool
 	// Filter, when set, selects which generated queries take part.
@@ -210,6 +212,9 @@ func Run(r *core.Run, cfg Config) {
 			}
 			mc, mf := Minimise(c, f, cfg.Oracle, single, get)
 			subj := Subject(mc, mf)
+			if cfg.Subject != nil {
+				subj = cfg.Subject(mc, mf)
+			}
 			r.Violate(core.Violation{Clause: mf.Clause, Kind: mf.Kind, Subject: subj, Witness: core.J(mc.Witness()), Observed: mf.Observed, Expected: mf.Expected})
 		}
 	})
